@@ -190,7 +190,7 @@ def train_same(ctx):
 
 GROUPS = [guard(machine_rt), guard(machine_none_limit), guard(stats_rt), guard(train_same)]
 SHARED = []
-REPLAY = [("C18.gmm", "h5_repro.py", "machine", {}), ("C18.stats", "h5_repro.py", "stats", {})]
+REPLAY = [("C18", "h5_repro.py", "machine", {}), ("C18.gmm", "h5_repro.py", "machine", {}), ("C18.stats", "h5_repro.py", "stats", {})]
 TRUSTED = ["h5py map model (DESIGN §3): values read back bit-identically; str datasets come back as bytes; attrs round-trip str; Dataset == 's' is False; None cannot be stored",
            "legacy-format files: the legacy writer is not in the repository; the legacy readers are exercised only by the pinned tests (not decided here)"]
 ASSUMPTIONS = ["machine satisfies Inv (variances >= floors)"]
